@@ -7,7 +7,7 @@ import pipe
 
 ID = "C03"
 MODULE = "C03"
-IMPORTS = "Bytes RustInt Range CacheControl Cache CacheProofs Fixture CacheX CacheXProofs CacheXWitness CacheKey CacheKeyProofs RuleSet CacheRules CacheRulesProofs CacheReachProofs CacheFixtureProofs"
+IMPORTS = "Bytes RustInt Range CacheControl Cache CacheProofs Fixture CacheX CacheXProofs CacheXWitness CacheKey CacheKeyProofs RuleSet CacheRules CacheRulesProofs CacheReachProofs CacheFixtureProofs CacheQmProofs"
 PROFILES = ("dev",)
 MAX_NOT_EXECUTED = 4      # timed histories that could not be run within their slack after 3 x 3 attempts (set per tier in generate); everything else always runs
 _PINS = json.load(open(os.path.join(os.path.dirname(os.path.abspath(__file__)), "pins", "C03.json")))
@@ -17,7 +17,8 @@ THEOREMS = [(n, _PINS[n]) for n in ("cache_transparent", "cache_hit_same_class",
                                     "vary_rules_most_specific", "vary_exact_rule_wins", "vary_longest_pattern_wins",
                                     "length_first_shadows_exact_refuted",
                                     "cache_transparent_reachable", "fixture_honours_contract", "fixture_cache_transparent",
-                                    "override_poisons_refuted", "stream_vary_refuted", "qm_variant_refuted")]
+                                    "override_poisons_refuted", "stream_vary_refuted", "qm_variant_refuted",
+                                    "stored_variant_keyed_by_what_it_depends_on", "qm_response_never_under_path_key", "qm_queryless_variant_refuted")]
 RULE = ("histories of requests/clears/waits against kvarn::handle_cache in process (harness/src/c04x.rs): (a) host with response cache vs. the Coq cache "
         "model Model/CacheX.v (component pipex.run; correspondence: status, vary / x-h / last-modified presence, decoded body, identity body, stream, "
         "handler invocation log per request), (b) host without response cache vs. the model run with cache off, (c) oracle real-vs-model: every reply "
@@ -39,11 +40,11 @@ RULE = ("histories of requests/clears/waits against kvarn::handle_cache in proce
         "every spelling that echo the raw path, handlers with their own status/body per spelling, files whose content type is guessed from the "
         "raw extension (real-vs-real only); directed orders (plain first, odd first, with query, encoded '?', two odd spellings) and random "
         "histories with clears. Family 'rules': vary rule sets in which an exact rule stands next to patterns '<prefix>*' covering the same path "
-        "(/lang + /lang*; /api + /api* + /a*; /lang* + /lang + /*; ...) added in random order, every pattern varying on ANOTHER header, pages whose "
+        "(/lang + /lang*; /api + /api* + /a*; /lang* + /lang + /*; /doc* + /docs — a pattern as long as the exact path —; ...) added in both orders and in random order, every pattern varying on ANOTHER header, pages whose "
         "handlers echo the tuple of the rule that applies to them, requests with different values of each header. Family 'expand': default "
         "extensions, a vary rule on the page a short spelling expands to ('/', 'dir/', 'name.'), the item entering the cache through the short or "
         "the long spelling, then other header values, clears of either spelling. Family 'ovrules': an override Prime on a host whose page and "
-        "internal route carry vary rules on different headers. Every real-vs-real scenario is also given to the model component pipex.wf "
+        "internal route carry vary rules on different headers. Family 'qmvar': one page whose variants declare different cache preferences (x-view: plain -> Full, static; detail -> QueryMatters, echo of path?query), the three steps {Full variant; QueryMatters variant without query; QueryMatters variant with a query} in all six orders followed by other queries, the empty query '/report?', HEAD, clears, and random histories over three variants. Family 'emptyhdr': a tuple-echo page whose varied header arrives absent, present with an EMPTY value, or blank (' ', tab): transformation('') differs from the default for every transformation of the menu; both orders, every transformation. Every real-vs-real scenario is also given to the model component pipex.wf "
         "(wf_fixture: does theorem fixture_cache_transparent apply to this configuration?) — counted per family in the evidence; a scenario of "
         "the families rules / expand / ovrules / spell that was built for the theorem's domain and is rejected fails the run as a generator error. "
         "distinct_nontrivial = distinct (history, model outcome) pairs containing at least one cache hit")
@@ -53,7 +54,8 @@ ASSUMPTIONS = [
     "this is now a THEOREM (fixture_honours_contract / fixture_cache_transparent) for every configuration that passes wf_fixture (no counting "
     "handler, no extended switch/stream handler, path-echo handlers QueryMatters and not an internal route, tuple-echo handlers echoing the "
     "rules of their path); the extended handlers of the families random / negotiation / timed (selection by a raw header value: a function of "
-    "the transformed tuple only on the generated lower-case values) and path-echo handlers declared Full (histories without queries) satisfy it "
+    "the transformed tuple only on the generated lower-case values, the empty value and blanks; family qmvar: the preference — Full / QueryMatters — "
+    "is a function of that value too) and path-echo handlers declared Full (histories without queries) satisfy it "
     "by construction only. cache_transparent_reachable asks the contract only of the (request, override URI) pairs the Primes produce. "
     "The earlier extra hypothesis 'query-matters-ness is uniform per path' is gone: it was needed only because of the "
     "defect witnessed by qm_variant_refuted, now repaired",
@@ -99,7 +101,13 @@ LEVEL_TEXT = ("Coq theorem cache_transparent over the full cache model (streams,
               "model of the cache-less host (pipex.run_nocache, the oracle) answer alike — the hypothesis of cache_transparent is discharged for the "
               "very model the code is compared with; not for configurations with extended (switch / stream) handlers. Three defects of the code before its repair are "
               "proved as witnesses on the faithful old model (override_poisons_refuted: an internal route's answer stored under the page's key; "
-              "qm_variant_refuted: a QueryMatters variant joined a path-keyed entry and was served for every query; stream_vary_refuted). Tied to the repo worktree by a differential run of the real kvarn::handle_cache against the extracted model on "
+              "qm_variant_refuted: a QueryMatters variant joined a path-keyed entry and was served for every query; stream_vary_refuted). "
+              "stored_variant_keyed_by_what_it_depends_on / qm_response_never_under_path_key: after ANY history every stored variant was computed for a "
+              "GET/HEAD request of that vary tuple whose looked-up URI has the path of its Path key — and is then not query-dependent — or the path and "
+              "query of its PathQuery key; in particular a QueryMatters response is never held by the path-keyed entry every query falls back to, whether "
+              "or not its request carried a query (the seeded change C03-10 as a model property; fixture example c03_ex_qm_queryless_variant; qm_queryless_variant_refuted: its three-step "
+              "history — Full variant, QueryMatters variant without query, the same with a query — on the model without the key-kind guard, with which "
+              "that change coincides on query-less requests: /v?id=7 is answered with the response computed for /v). Tied to the repo worktree by a differential run of the real kvarn::handle_cache against the extracted model on "
               "generated histories, for hosts with and without the response cache, and by the real-vs-real comparison of the two hosts.")
 LEVEL_NOTE = ("Trusted: Coq kernel; extraction (sample re-checked in-kernel); hand transcription of handle_cache into Model/CacheX.v validated by the "
               "differential run; moka as a finite map; sequential histories. No axioms.")
@@ -163,10 +171,10 @@ def rand_request(rng, focus=None, origin=False, ovhdr=False, ae406=False):
         hdrs.append((b"range", rng.choice([b"bytes=0-3", b"bytes=5-2", b"bytes=2-", b"bytes=100-200"])))
     if p == b"/v" or rng.random() < 0.1:
         if rng.random() < 0.9:
-            hdrs.append((b"x-v", rng.choice(VVALS)))
+            hdrs.append((b"x-v", rng.choice(VVALS) if rng.random() < 0.9 else rng.choice([b"", b" "])))      # present but empty / blank: no behaviour matches = the first one
     if p == b"/w" or rng.random() < 0.1:
         if rng.random() < 0.8:
-            hdrs.append((b"x-w", rng.choice([b"a", b"B", b"zz", b"abc", b""])))
+            hdrs.append((b"x-w", rng.choice([b"a", b"B", b"zz", b"abc", b"", b"", b" "])))
     if origin and rng.random() < 0.3:
         hdrs.append((b"origin", rng.choice([b"https://evil.example", b"http://localhost", b"null", b"localhost", b"http://localhost:80"])))
     if ovhdr and rng.random() < 0.3:
@@ -332,12 +340,18 @@ def rules_cases(rng, tier):
     cases = []
     layouts = [([b"/lang", b"/lang*"], [b"/lang", b"/langx"]), ([b"/api", b"/api*", b"/a*"], [b"/api", b"/api/x", b"/ab"]),
                ([b"/lang*", b"/lang", b"/*"], [b"/lang", b"/other"]), ([b"/l/i.html", b"/l/*", b"/l*"], [b"/l/i.html", b"/l/j", b"/lx"]),
-               ([b"/lang", b"/lang*", b"/lan*", b"/langu*"], [b"/lang", b"/language", b"/land"])]
+               ([b"/lang", b"/lang*", b"/lan*", b"/langu*"], [b"/lang", b"/language", b"/land"]),
+               # seeded/C05-9: a wildcard whose text is as long as the exact path (prefix = path minus its last byte) ties with it when
+               # rules are ordered by length alone, and wins or loses by the order of addition; '<path>*' is one longer
+               ([b"/doc*", b"/docs"], [b"/docs", b"/docx"]), ([b"/docs", b"/doc*", b"/docs*"], [b"/docs", b"/docs/a", b"/doc"])]
     n = 0
     for patterns, pages in layouts:
         for rep in range(2 if tier == "quick" else 12):
             order = list(patterns)
-            rng.shuffle(order)
+            if rep == 1:
+                order.reverse()            # both orders of addition of every layout even in the quick tier
+            elif rep > 1:
+                rng.shuffle(order)
             tuples = {}
             hdrs = RULE_HDRS[:]
             rng.shuffle(hdrs)
@@ -436,6 +450,85 @@ def ovrules_cases(rng, tier):
     return cases
 
 
+# ---- family 'qmvar' (seeded/C03-10): one page whose variants declare DIFFERENT cache preferences — the handler's preference depends on the
+# varied header: variant a is Full (static, independent of the query), variant b QueryMatters (echo of path?query).  The Full variant creates
+# the item keyed by the path alone; a QueryMatters response — whether its request carries a query or not — must never join that item, because
+# the lookup falls back from the PathQuery key to the Path key and would serve it for every query.
+def qmvar_cases(rng, tier):
+    import itertools
+    cases = []
+    Ra, Rb = [(b"x-view", b"plain")], [(b"x-view", b"detail")]
+    for rep, (page, q1, q2) in enumerate([(b"/report", b"?id=7", b"?id=2"), (b"/v", b"?x=1", b"?x=2")]):
+        A = pipe.H(page, kind=rng.choice([0, 4]), body=b"plain report:", spref=2, cpref=0, headers=[(b"x-h", b"A")])
+        B = pipe.H(page, kind=1, body=b"detail of:", spref=1, cpref=0, headers=[(b"x-h", b"B")])
+        xh = pipe.XH(page, b"x-view", [(b"plain", A, 0, 0), (b"detail", B, 0, 0)])
+        vary = [pipe.vary_rule(page, [(b"x-view", 0, b"plain")])]
+        full = lambda: pipe.req(page + rng.choice([b"", b"", q1]), headers=rng.choice([Ra, Ra, []]))      # absent header = the default = plain
+        steps = [full(), pipe.req(page, headers=Rb), pipe.req(page + q1, headers=Rb)]
+        hists = [[steps[i] for i in perm] + [pipe.req(page + q2, headers=Rb), pipe.req(page, headers=Rb), pipe.req(page + q1, headers=Rb)]
+                 for perm in itertools.permutations(range(3))]
+        # the query-less QueryMatters request first, the Full variant afterwards; the empty query ('/report?' is the query-less key)
+        hists.append([pipe.req(page, headers=Rb), full(), pipe.req(page, headers=Rb), pipe.req(page + q1, headers=Rb), pipe.req(page + q1, headers=Ra)])
+        hists.append([full(), pipe.req(page + b"?", headers=Rb), pipe.req(page + q1, headers=Rb), pipe.req(page + b"?", headers=Rb)])
+        hists.append([full(), pipe.req(page, method=b"HEAD", headers=Rb), pipe.req(page + q2, headers=Rb), pipe.clear_page(page), pipe.req(page, headers=Rb),
+                      pipe.req(page + q2, headers=Rb)])
+        for k, ops in enumerate(hists):
+            cases += mk_cases(rng, [], ops, rep == 1 and k % 2 == 0, "qmvar", xhs=[xh], vary=vary, nocache_run=(tier != "quick" or k % 3 == 0))
+    # random histories: three variants (Full / QueryMatters / Full with another body), queries and no query, clears
+    for i in range(12 if tier == "quick" else 300):
+        page = b"/report"
+        prefs = [2, 1, rng.choice([1, 2, 0])]
+        behs = []
+        for v, sp in zip([b"plain", b"detail", b"raw"], prefs):
+            behs.append((v, pipe.H(page, kind=1 if sp == 1 else 0, body=v + b":", spref=sp, cpref=0, headers=[(b"x-h", v)]), 0, 0))
+        xh = pipe.XH(page, b"x-view", behs)
+        vary = [pipe.vary_rule(page, [(b"x-view", 0, b"plain")])]
+        ops = []
+        for j in range(rng.randrange(4, 11)):
+            if rng.random() < 0.07:
+                ops.append(pipe.clear_page(page + rng.choice([b"", b"?id=7"])))
+                continue
+            v = rng.choice([b"plain", b"detail", b"detail", b"raw", None])
+            ops.append(pipe.req(page + rng.choice([b"", b"", b"?id=7", b"?id=2", b"?"]), method=rng.choice([b"GET", b"GET", b"GET", b"HEAD"]),
+                                headers=[(b"x-view", v)] if v is not None else []))
+        cases += mk_cases(rng, [], ops, False, "qmvar/random", xhs=[xh], vary=vary, pair=(i % 2 == 0), nocache_run=(tier != "quick"))
+    return cases
+
+
+# ---- family 'emptyhdr' (seeded/C03-11): a varied request header that is PRESENT with an empty (or whitespace-only) value goes through the
+# rule's transformation like any other value — transformation("") is not the rule's default: lower-casing gives "", the class map "none", the
+# length map "0", the constant map "k", the default is "dflt".  The tuple-echo handler renders exactly what the rule computes.
+EMPTYISH = [b"", b"", b" ", b"\t", b"  "]
+
+
+def emptyhdr_cases(rng, tier):
+    cases = []
+    for xf in (0, 1, 2, 3):
+        for rep in range(2 if tier == "quick" else 8):
+            d = rng.choice([b"dflt", b"sv", b"en"])
+            two = rng.random() < 0.4
+            tup = [(b"x-w", xf, d)] + ([(b"x-v", rng.choice([0, 1, 2]), b"dv")] if two else [])
+            sp = rng.choice([1, 2, 2])
+            hs = [pipe.H(b"/greet", kind=3, body=b"G", spref=sp, tuple_=tup, cpref=0)]
+            vary = [pipe.vary_rule(b"/greet", tup)]
+            none = lambda: pipe.req(b"/greet", headers=[(b"x-v", b"a")] if two and rng.random() < 0.5 else [])
+            emp = lambda v=b"": pipe.req(b"/greet", headers=[(b"x-w", v)] + ([(b"x-v", b"a")] if two and rng.random() < 0.5 else []))
+            if rep == 0:
+                ops = [none(), emp(), none(), emp(), emp(b" "), pipe.req(b"/greet", headers=[(b"x-w", d)])]
+            elif rep == 1:
+                ops = [emp(), none(), emp(), pipe.req(b"/greet", headers=[(b"x-w", b"En")]), emp(b"\t"), none()]
+            else:
+                ops = []
+                for j in range(rng.randrange(3, 9)):
+                    if rng.random() < 0.06:
+                        ops.append(pipe.clear_page(b"/greet"))
+                        continue
+                    r = rng.random()
+                    ops.append(none() if r < 0.35 else emp(rng.choice(EMPTYISH)) if r < 0.8 else pipe.req(b"/greet", headers=[(b"x-w", rng.choice([d, b"a", b"N"]))]))
+            cases += mk_cases(rng, hs, ops, rng.random() < 0.3, "emptyhdr", vary=vary, pair=True, nocache_run=(tier != "quick" or rep == 0), expect_wf=True)
+    return cases
+
+
 def mk_cases(rng, hs, ops, default_ext, kind, xhs=(), vary=(), pair=True, run=True, nocache_run=True, expect_wf=False, echo=None, **cfgkw):
     """expect_wf: the configuration is built to lie inside the domain of theorem fixture_cache_transparent (Model/CacheRules.v wf_fixture,
     evaluated by the model side as component pipex.wf); a scenario that does not is a generator error, reported loudly"""
@@ -502,6 +595,9 @@ def generate(rng, tier):
     cases += rules_cases(rng, tier)
     cases += expand_cases(rng, tier)
     cases += ovrules_cases(rng, tier)
+    # variants of one page with different cache preferences (seeded/C03-10), empty / blank values of varied headers (C03-11)
+    cases += qmvar_cases(rng, tier)
+    cases += emptyhdr_cases(rng, tier)
     nhist = 230 if tier == "quick" else 5000
     for i in range(nhist):
         prefs = [rng.choice([0, 1, 2]) for _ in range(3)]
